@@ -9,6 +9,7 @@ import PM.Dom
 import PM.FromDom
 import Proofs.Dom
 import Proofs.FromDom
+import Proofs.Placement
 namespace PM.C19
 open PM.Dom
 
@@ -357,6 +358,49 @@ open PM.FromDom in
 theorem altMatches_empty (ok : List Char → TypeId → Bool) (stack : List TypeId) :
     AltMatches ok (itemsOf []) stack :=
   ⟨stack, [], by simp, .nil, by simp [itemsOf, splitOn, dropLastEmpty, dropFirstEmpty]⟩
+
+
+/-! ## Import side, part B: the placement core of `ParseContext` (PM/FromDom.lean, tied by recorded events)
+
+  `PState.run S wsPre (PState.init S false pw topOpen) events` is the model of one `DOMParser.parse` run: the
+  DOM walk (outside the model) issues `events`, the placement core answers them.  The theorems hold for
+  **every** event list, hence for whatever the walk does on whatever HTML.
+-/
+
+open PM.FromDom in
+/-- **`match` is coherent with `content`** (invariant over every event sequence of a `parse` run).
+    For every context of the stack — open or waiting to be closed —: it has a type `t`, a known match
+    `q`, is not open on the left, and `q` is the state `t`'s content automaton reaches from its start
+    state on the types of the context's `content`, followed by the type of its child context (the next
+    entry of `nodes`) if it has one.  Hypothesis: the automata are deterministic (`Det S`, decidable:
+    `det_of_detB`); it is needed because `find_wrapping` is proved sound only then. -/
+theorem placement_match_coherent (S : Schema) (wsPre : TypeId → Bool) (hdet : Det S)
+    (pw : WS) (topOpen : Bool) (events : List Event) (st : FromDom.PState)
+    (h : PState.run S wsPre (PState.init S false pw topOpen) events = .ok st)
+    (i : Nat) (cx : NodeCtx) (hi : st.nodes[i]? = some cx) :
+    cx.opts.openLeft = false ∧ ∃ t q, cx.ty = some t ∧ cx.mtch = some q ∧
+      (S.dfa t).run 0 (S.types cx.content ++ ((st.nodes[i + 1]?).bind (·.ty)).toList) = some q := by
+  have hc := run_spec S (fun _ => True) (fun _ _ _ _ _ _ => trivial) wsPre (fun w => hdet w 0) events _ st
+    (init_coh S _ pw topOpen) (fun e _ => by cases e <;> simp [EventOk, FinishOk]) h
+  obtain ⟨h1, _, h2⟩ := Coh_index S _ st.nodes hc i cx hi
+  exact ⟨h1, h2⟩
+
+open PM.FromDom in
+/-- consequence: at every moment the children collected in any context form a sequence its content
+    expression can still be completed from — `find_place` / `insert_node` / `enter` never append a node
+    (nor open a child) whose type the parent's automaton does not allow at that point -/
+theorem placement_content_prefix (S : Schema) (wsPre : TypeId → Bool) (hdet : Det S)
+    (pw : WS) (topOpen : Bool) (events : List Event) (st : FromDom.PState)
+    (h : PState.run S wsPre (PState.init S false pw topOpen) events = .ok st)
+    (cx : NodeCtx) (hcx : cx ∈ st.nodes) :
+    ∃ t, cx.ty = some t ∧ ((S.dfa t).run 0 (S.types cx.content)).isSome = true := by
+  obtain ⟨i, hi⟩ := List.getElem?_of_mem hcx
+  obtain ⟨_, t, q, h1, _, h3⟩ := placement_match_coherent S wsPre hdet pw topOpen events st h i cx hi
+  refine ⟨t, h1, ?_⟩
+  rw [Dfa.run_append] at h3
+  cases hr : (S.dfa t).run 0 (S.types cx.content) with
+  | none => simp [hr] at h3
+  | some _ => rfl
 
 section Examples
 open PM.FromDom
